@@ -716,6 +716,11 @@ func (fr *FnRun) checkPost(st *State, results []Val) {
 			fr.postEvaluated[en]++
 		}
 		if evalErr != "" {
+			if n := fr.staleName(evalErr); n != "" && fr.fn.Parent() == nil {
+				panic(abortf("contract out of date: clause {%s} mentions %q, which is not a parameter or local of the function any more (renamed or removed); the contract has to be updated", en.Label, n))
+			}
+		}
+		if evalErr != "" {
 			// the clause can no longer be stated over this function (e.g. it mentions a captured
 			// variable the function no longer has): the obligation fails
 			d := fmt.Sprintf("%d", i+1)
@@ -753,6 +758,33 @@ func (fr *FnRun) mentionsUndefinedLocal(evalErr string) bool {
 	}
 	_, ok := fr.locals[name]
 	return ok
+}
+
+// staleName: the evaluation error names an identifier that is neither a parameter, a captured
+// variable nor a source-level local of the function (any more): the contract talks about something
+// that was renamed or removed.  That is a contract out of date - the function becomes UNDECIDED -
+// not a violation of the property (a renamed local is a harmless edit).  A name that still exists
+// but has no value at the point of the clause (the code was reordered) is a different matter and
+// stays a failed obligation.
+func (fr *FnRun) staleName(evalErr string) string {
+	i := strings.Index(evalErr, "unknown identifier \"")
+	if i < 0 {
+		return ""
+	}
+	name := evalErr[i+len("unknown identifier \""):]
+	if j := strings.Index(name, "\""); j >= 0 {
+		name = name[:j]
+	}
+	if _, ok := fr.locals[name]; ok {
+		return ""
+	}
+	if _, ok := fr.env0[name]; ok {
+		return ""
+	}
+	if strings.HasPrefix(name, "L") && strings.Contains(name, "_") {
+		return "" // L<ord>_<name> loop variables are positional
+	}
+	return name
 }
 
 // defaultPost: implicit postconditions every function gets.
